@@ -205,6 +205,23 @@ def ixConfigureBank (c : Cfg) (flags : Nat) (entries : List Entry) (maxInitU32 m
     let _ ← validateEmode entries r.1.lInit r.1.lMaint maxInitU32 maxMaintU32
     .ok r
 
+/-- `lending_pool_configure_bank_interest_only(interest_rate_config)`: nothing on a frozen bank; otherwise the update is
+    applied and the WHOLE resulting curve configuration (end rates, points, fees) is validated -/
+def ixConfigureInterestOnly (c : Cfg) (flags : Nat) (o : IrOpt) : Res Cfg :=
+  if hasFlag flags FREEZE_SETTINGS then .ok c
+  else do
+    let ir' := irUpdate c.ir o
+    let ok ← Interest.validate ir'.toCalc
+    let _ ← need ok E.InvalidConfig
+    .ok { c with ir := ir' }
+
+/-- `lending_pool_configure_bank_limits_only(deposit, borrow, init limit)`: a frozen bank only takes the first two -/
+def ixConfigureLimitsOnly (c : Cfg) (flags : Nat) (dl bl il : Option Int) : Cfg :=
+  if hasFlag flags FREEZE_SETTINGS then
+    { c with depositLimit := setIf c.depositLimit dl, borrowLimit := setIf c.borrowLimit bl }
+  else
+    { c with depositLimit := setIf c.depositLimit dl, borrowLimit := setIf c.borrowLimit bl, initLimit := setIf c.initLimit il }
+
 /-- `verify_emissions_flags` -/
 def verifyEmissionsFlags (f : Nat) : Bool := (f &&& EMISSION_FLAGS.toNat) == f
 
